@@ -366,7 +366,11 @@ def check_disjoint_set(fx, rep):
                     f"find() rewrites a parent link with `{T.short(val)}`: only the recursive find result (path compression) or a self-link for a new element keeps the partition intact",
                     sample={"rule": "R19.4", "write": f"reps[{T.short(key)}] = {T.short(val)}", "at": F.loc(n["span"])},
                 )
-        rep.floor("R19.4", n_w, 2, "parent-link writes in find()")
+        rep.floor("R19.4", n_w, 1, "parent-link writes in find()")
+        # an element that was never inserted is registered (as its own representative) the first time it is looked up:
+        # otherwise it takes part in unions and carries data but is missing from values() / sets()
+        self_links = [1 for n, ps in F.calls(root) if n.get("k") == "MethodCall" and n["method"] == "insert" and field_of_self(T.term(n["recv"], T.Env(), mutated), reps) and T.term(n["args"][0], T.Env(), mutated)[0] == "local" and T.term(n["args"][1], T.Env(), mutated)[0] == "local" and T.term(n["args"][0], T.Env(), mutated)[1] == T.term(n["args"][1], T.Env(), mutated)[1]]
+        rep.oblige(bool(self_links), "R19.4", "find-registers-unknown", F.loc(f["span"]), "find() does not register an element it has never seen (no `reps.insert(value, value)` on the not-found path): such an element can be united and carry data yet never appears in values() or sets()")
         # the root test compares the stored parent with the queried value
         eqs = [n for n, _ in F.walk(root) if n.get("k") == "Binary" and n["op"] == "Eq"]
         rep.oblige(len(eqs) >= 1, "R19.4", "find-root-test", F.loc(f["span"]), "find() has no `parent == value` root test")
@@ -405,6 +409,11 @@ def check_combine(fx, rep):
                 ok = any("default" in c or c.endswith("::new") for c in cs)
                 rep.oblige(ok, "R19.3", "identity-hashset", F.loc(b["span"]), "Combine::identity for HashSet must be the empty set")
     rep.floor("R19.3", n, 2, "Combine for HashSet (combine, identity)")
+    # the other implementation a forest can be instantiated with (Option<A>): inner combine, None as the identity on BOTH sides
+    from .. import core
+    from .c16 import check_combine as c16_check_combine
+
+    c16_check_combine(fx, core.Retag(rep, "R19.3"))
 
 
 def check(fx, rep, tier):
